@@ -1206,6 +1206,78 @@ func runC03(c *core.Ctx) core.Meta {
 		}
 	}
 
+	// ---------------- R03.13 conditional branches test the right register with the right polarity ----------------
+	st13 := c.Rule("R03.13", "s_cbranch_{scc0,scc1,vccz,vccnz,execz,execnz} change the PC only on the edge on which the register named by the mnemonic is zero / non-zero as the mnemonic says, and every branch target is PC + sign-extended SIMM16 * 4", 7)
+	brName := regexp.MustCompile(`^s_(branch|cbranch_(scc0|scc1|vccz|vccnz|execz|execnz))$`)
+	seen13 := map[string]bool{}
+	for _, h := range handlers {
+		for _, iname := range h.insts {
+			m := brName.FindStringSubmatch(iname)
+			if m == nil || seen13[h.alu.pkg+"."+h.name] {
+				continue
+			}
+			seen13[h.alu.pkg+"."+h.name] = true
+			fn := c.SSAFunc(h.alu.pkg, h.alu.typ+"."+h.name)
+			if fn == nil {
+				continue
+			}
+			g := core.BuildGraph(fn, 0, nil)
+			for _, n := range g.Nodes {
+				name, cc := stateMethod(n.Instr)
+				if name != "SetPC" {
+					continue
+				}
+				st13.Instances++
+				c.MarkAnalysed(fn)
+				// target
+				pv := prov.Of(cc.Args[0])
+				okT := strings.Contains(pv, ".PC()") && strings.Contains(pv, ".SImm16") && strings.Contains(pv, "*4)")
+				st13.Ob(okT)
+				if !okT {
+					c.ReportAt("R03.13", fn, n.Instr.Pos(), "branch-target", h.name+" sets the PC to "+short(pv)+", not PC + SIMM16 * 4")
+				}
+				if m[2] == "" {
+					continue
+				}
+				reg := map[string]string{"scc0": ".SCC()", "scc1": ".SCC()", "vccz": ".VCC()", "vccnz": ".VCC()", "execz": ".EXEC()", "execnz": ".EXEC()"}[m[2]]
+				wantZero := m[2] == "scc0" || m[2] == "vccz" || m[2] == "execz"
+				st13.Instances++
+				cut := CmpCut(func(_ *core.Node, op token.Token, x, y ssa.Value) int {
+					if !strings.HasSuffix(prov.Of(core.StripConv(x)), reg) {
+						return 0
+					}
+					k, isC := core.ConstInt(y)
+					if !isC {
+						if ku, isU := core.ConstUint(y); isU {
+							k, isC = int64(ku), true
+						}
+					}
+					if !isC {
+						return 0
+					}
+					// d: +1 when "register is zero" holds on the true edge
+					d := 0
+					switch {
+					case op == token.EQL && k == 0, op == token.NEQ && k == 1 && reg == ".SCC()":
+						d = 1
+					case op == token.NEQ && k == 0, op == token.EQL && k == 1 && reg == ".SCC()", op == token.GTR && k == 0:
+						d = -1
+					}
+					if !wantZero {
+						d = -d
+					}
+					return d
+				})
+				okP := g.Guarded(n, cut)
+				st13.Ob(okP)
+				st13.Sample("%s.%s (%s): PC changes only when %s is %s: %v", h.alu.typ, h.name, iname, strings.Trim(reg, ".()"), map[bool]string{true: "zero", false: "non-zero"}[wantZero], okP)
+				if !okP {
+					c.ReportAt("R03.13", fn, n.Instr.Pos(), "branch-polarity:"+m[2], fmt.Sprintf("%s changes the PC on a path that did not find %s %s: %s branches exactly when it is", h.name, strings.Trim(reg, ".()"), map[bool]string{true: "zero", false: "non-zero"}[wantZero], iname))
+				}
+			}
+		}
+	}
+
 	// ---------------- R03.2 shift-amount masking ----------------
 	st2 := c.Rule("R03.2", "in handlers of shift instructions (tied to their names through decode table -> dispatch switch -> callee) every data-dependent shift amount is confined to [0, W-1] (W from the instruction name) by a mask or modulus before it reaches the Go shift, because Go saturates where the ISA uses the low 4/5/6 bits", 15)
 	seenH := map[string]bool{}
